@@ -41,6 +41,8 @@ pub struct Work {
     pub pixel_perfect: bool,
     pub z: f32,
     pub depth: u8,
+    /// mmap granularity knob (JIT): None = the real page size
+    pub page: Option<usize>,
 }
 
 impl Work {
@@ -92,7 +94,7 @@ const TILES_3D: &[&[usize]] = &[
     &[64, 16, 8],
 ];
 
-fn gen_mat3(ch: &mut Chooser, allow_persp: bool) -> Matrix3<f32> {
+fn gen_mat3(ch: &mut Chooser, allow_persp: bool, extent: f32) -> Matrix3<f32> {
     let mut m = Matrix3::identity();
     if ch.choose("m3_identity", 3) == 0 {
         return m;
@@ -118,13 +120,14 @@ fn gen_mat3(ch: &mut Chooser, allow_persp: bool) -> Matrix3<f32> {
     // homogeneous coordinate inside the renderer; only z-independent shapes
     // get one (see DESIGN.md, C06 scope)
     if allow_persp && ch.odds("m3_persp", 1, 8) {
-        m[(2, 0)] = ch.float_sym("m3_persp_v", 0.15, 3);
-        m[(2, 1)] = ch.float_sym("m3_persp_v", 0.15, 3);
+        // keep the homogeneous divisor within [0.6, 1.4] over the image
+        m[(2, 0)] = ch.float_sym("m3_persp_v", 0.2 / extent, 3);
+        m[(2, 1)] = ch.float_sym("m3_persp_v", 0.2 / extent, 3);
     }
     m
 }
 
-fn gen_mat4(ch: &mut Chooser) -> Matrix4<f32> {
+fn gen_mat4(ch: &mut Chooser, extent: f32) -> Matrix4<f32> {
     if ch.choose("m4_identity", 3) == 0 {
         return Matrix4::identity();
     }
@@ -151,7 +154,8 @@ fn gen_mat4(ch: &mut Chooser) -> Matrix4<f32> {
     );
     m = Matrix4::new_translation(&t) * m;
     if ch.odds("m4_persp", 1, 8) {
-        m[(3, 2)] = ch.float_sym("m4_persp_v", 0.2, 4);
+        // keep the homogeneous divisor within [0.6, 1.4] over the grid
+        m[(3, 2)] = ch.float_sym("m4_persp_v", 0.4 / extent, 4);
     }
     m
 }
@@ -201,8 +205,15 @@ pub fn gen_work(ch: &mut Chooser, kind: Kind, tier: Tier) -> Work {
             (0, 0, 0, None, depth)
         }
     };
-    let m3 = gen_mat3(ch, dims == 2);
-    let m4 = gen_mat4(ch);
+    // world coordinates span [-extent, extent]: screen_to_world scales by
+    // 2 / min(size)
+    let extent = match kind {
+        Kind::D2 => w.max(h) as f32 / w.min(h) as f32,
+        Kind::D3 => w.max(h).max(d) as f32 / w.min(h).min(d) as f32,
+        Kind::Mesh => 1.0,
+    } + 1.0;
+    let m3 = gen_mat3(ch, dims == 2, extent);
+    let m4 = gen_mat4(ch, extent);
     let pixel_perfect = ch.odds("pixel_perfect", 1, 4);
     let z = if dims == 3 {
         ch.float_sym("z", 0.5, 5)
@@ -222,6 +233,14 @@ pub fn gen_work(ch: &mut Chooser, kind: Kind, tier: Tier) -> Work {
         pixel_perfect,
         z,
         depth,
+        // regrowth is exercised heavily by E2; here only a share of the
+        // workloads use it (every regrow is an mmap/munmap pair, which
+        // serialises the 16 simulation threads on the process mmap lock)
+        page: match ch.choose("page", 8) {
+            6 => Some(256),
+            7 => Some(64),
+            _ => None,
+        },
     }
 }
 
@@ -360,6 +379,7 @@ fn exec_generic<F: Function + RenderHints + MathFunction + Clone>(
     let global = ThreadPool::Global;
     let threads = pool.map(|_| &global);
     st.borrow_mut().begin_exec(pool, Some(token.clone()), plan);
+    st.borrow_mut().page = work.page;
     rt::install(st);
     let r = rt::catch(|| match work.kind {
         Kind::D2 => {
@@ -819,6 +839,10 @@ fn dual_gradient(
     }
     let g = r.vals[work.sg.root];
     if !g.v.is_finite() || g.d.iter().any(|v| !v.is_finite()) {
+        return None;
+    }
+    if g.d.iter().any(|v| v.abs() > 1e4) {
+        // ill-conditioned (near a pole of the transform or of the field)
         return None;
     }
     Some(g.d)
